@@ -393,3 +393,33 @@ where
         }
     }
 }
+
+
+/// A `log` logger that formats every record and throws the text away: what the log statements of the code under test
+/// evaluate (arguments are only evaluated when a logger is enabled — the real server binary always installs one) is
+/// evaluated in the simulations too.
+pub fn install_discarding_logger() {
+    struct Discard;
+    struct Null;
+    impl std::fmt::Write for Null {
+        fn write_str(&mut self, _: &str) -> std::fmt::Result {
+            Ok(())
+        }
+    }
+    impl log::Log for Discard {
+        fn enabled(&self, _: &log::Metadata) -> bool {
+            true
+        }
+        fn log(&self, record: &log::Record) {
+            let _ = std::fmt::Write::write_fmt(&mut Null, *record.args());
+        }
+        fn flush(&self) {}
+    }
+    static LOGGER: Discard = Discard;
+    if std::env::var("VERIF_LOG").map(|v| v == "off").unwrap_or(false) {
+        return;
+    }
+    if log::set_logger(&LOGGER).is_ok() {
+        log::set_max_level(log::LevelFilter::Trace);
+    }
+}
